@@ -313,6 +313,52 @@ class _SvcListener(ServiceListener):
         self.w.cbs.append((self.bid, "U", type_, name, None, self.w.snapshot()))
 
 
+class _DummyTask:
+    """stands for the query-sender task `_async_start` creates (the scheduler is C10's subject)"""
+
+    def cancel(self):
+        pass
+
+
+def _fake_ensure_future(coro):
+    coro.close()
+    return _DummyTask()
+
+
+class _InlineQueue:
+    """`ServiceBrowser.queue` without the delivery thread: `run()` does `_fire_service_state_changed_event(event)` for every
+    event it gets from the queue; here `put` does it at once"""
+
+    def __init__(self, browser):
+        self.b = browser
+
+    def put(self, event):
+        if event is not None:
+            self.b._fire_service_state_changed_event(event)
+
+
+class _ThreadedLike(_zc_browser._ServiceBrowserBase):
+    """a browser that runs the *real* `ServiceBrowser.async_update_records_complete` override (the threaded API's own
+    queue-and-clear loop) with an inline queue instead of the delivery thread"""
+
+    async_update_records_complete = _zc_browser.ServiceBrowser.async_update_records_complete
+
+    def __init__(self, *a, **kw):
+        super().__init__(*a, **kw)
+        self.queue = _InlineQueue(self)
+
+
+def start_browser(b):
+    """the real `_async_start` (listener registration with the PTR questions = initial replay); only
+    `asyncio.ensure_future` is replaced, so that no event loop is needed"""
+    orig = _zc_browser.asyncio.ensure_future
+    _zc_browser.asyncio.ensure_future = _fake_ensure_future
+    try:
+        b._async_start()
+    finally:
+        _zc_browser.asyncio.ensure_future = orig
+
+
 class Probes:
     def __init__(self, names, recs, triples):
         self.names = list(names)
@@ -377,6 +423,7 @@ class World:
         self.reacts = []
         self.executed = []
         self.failed = []
+        self.cbs2 = []
 
     def listener(self, lid):
         l = self._listeners.get(lid)
@@ -422,6 +469,7 @@ class World:
         """run one op on the real code; returns its observation (dict of strings / lists of strings);
         with observe=False the readers are not evaluated (`R` is None)"""
         self.log, self.cbs, self.executed, self.failed = [], [], [], []
+        self.cbs2 = []
         self.legacy = []
         self.zc.notified = 0
         k = op[0]
@@ -450,16 +498,24 @@ class World:
                 self.rm.async_remove_listener(self.listener(op[1]))   # unguarded: absent -> whatever the code does
             elif k == "BA":
                 _CLOCK[0] = float(op[2])
-                b = _zc_browser._ServiceBrowserBase(self.zc, list(op[3]), listener=_SvcListener(self, op[1]))
-                old = self.browsers.pop(op[1], None)
-                if old is not None and old in self.rm.listeners:
-                    self.rm.async_remove_listener(old)
-                self.browsers[op[1]] = b
-                self.rm.async_add_listener(b, [DNSQuestion(t, K._TYPE_PTR, K._CLASS_IN) for t in b.types])
+                bid = op[1]
+                # even ids: the asyncio flavour's callback path; odd ids: the threaded flavour's override.  A second, plain
+                # handler is registered next to the listener (Signal.fire with several handlers)
+                cls = _zc_browser._ServiceBrowserBase if bid % 2 == 0 else _ThreadedLike
+
+                def second(zeroconf, service_type, name, state_change, _bid=bid):
+                    self.cbs2.append((_bid, {"Added": "A", "Removed": "R", "Updated": "U"}[state_change.name], service_type, name))
+
+                b = cls(self.zc, list(op[3]), handlers=[second], listener=_SvcListener(self, bid))
+                old = self.browsers.pop(bid, None)
+                if old is not None:
+                    old._async_cancel()
+                self.browsers[bid] = b
+                start_browser(b)          # the real _async_start
             elif k == "BR":
                 b = self.browsers.pop(op[1], None)
                 if b is not None:
-                    self.rm.async_remove_listener(b)
+                    b._async_cancel()     # the real cancel (scheduler.stop, async_remove_listener, task.cancel)
             else:
                 raise HarnessError("unknown op %r" % (op,))
         except HarnessError:
@@ -485,6 +541,7 @@ class World:
         obs["legacy"] = list(self.legacy)
         obs["n"] = self.zc.notified
         obs["cb"] = [list(x) for x in self.cbs]
+        obs["cb2"] = [list(x) for x in self.cbs2]
         obs["ids"] = self.registered_ids()
         obs["S"] = self.snapshot()
         obs["R"] = self.readers() if (observe or obs["err"]) else None   # an op that raised ends the history: observe it
